@@ -68,7 +68,8 @@ pub mod tokio_shim {
 
         pub enum JoinHandle<T> {
             Real(::tokio::task::JoinHandle<T>),
-            Virt(futures::channel::oneshot::Receiver<T>),
+            /// receiver, result held back for one poll, whether that has happened
+            Virt(futures::channel::oneshot::Receiver<T>, Option<Box<Result<T, JoinError>>>, bool),
         }
 
         impl<T> Future for JoinHandle<T> {
@@ -76,7 +77,27 @@ pub mod tokio_shim {
             fn poll(self: Pin<&mut Self>, cx: &mut Context<'_>) -> Poll<Self::Output> {
                 match self.get_mut() {
                     JoinHandle::Real(h) => Pin::new(h).poll(cx).map(|r| r.map_err(|_| JoinError)),
-                    JoinHandle::Virt(r) => Pin::new(r).poll(cx).map(|r| r.map_err(|_| JoinError)),
+                    JoinHandle::Virt(r, held, yielded) => {
+                        if let Some(v) = held.take() {
+                            return Poll::Ready(*v);
+                        }
+                        match Pin::new(r).poll(cx) {
+                            Poll::Ready(v) => {
+                                let v = v.map_err(|_| JoinError);
+                                // a joiner that was woken by the actor's stop notification may poll the
+                                // handle before the task has completed: "not ready yet", once
+                                if !*yielded && backend().is_some_and(|b| b.preemption_points()) {
+                                    *yielded = true;
+                                    *held = Some(Box::new(v));
+                                    cx.waker().wake_by_ref();
+                                    Poll::Pending
+                                } else {
+                                    Poll::Ready(v)
+                                }
+                            }
+                            Poll::Pending => Poll::Pending,
+                        }
+                    }
                 }
             }
         }
@@ -91,13 +112,9 @@ pub mod tokio_shim {
             Some(b) => {
                 let (tx, rx) = futures::channel::oneshot::channel();
                 b.spawn(Box::pin(async move {
-                    let out = future.await;
-                    // the task has produced its result (an actor loop has sent its stop
-                    // notification) but the join handle is not complete yet
-                    sync_point().await;
-                    let _ = tx.send(out);
+                    let _ = tx.send(future.await);
                 }));
-                task::JoinHandle::Virt(rx)
+                task::JoinHandle::Virt(rx, None, false)
             }
             None => task::JoinHandle::Real(::tokio::spawn(future)),
         }
